@@ -1,5 +1,5 @@
 #!/bin/bash
-# background driver: mutation sweep over several units, 3 at a time (development aid)
+# background driver: mutation sweep over several units, 3 at a time (development aid). args: unit:k ...
 cd "$(dirname "$0")/.."
-units="${@:-limiter prune addrs fetch scope streams admission thresholds noise mux implied qc leader blockstore}"
-printf "%s\n" $units | xargs -P 3 -I{} sh -c 'python3 tools/mutsweep.py {} 2 > .work/mutsweep_{}.log 2>&1; grep -A2 "^SURVIVOR\|^unit" .work/mutsweep_{}.log'
+mkdir -p .work
+printf "%s\n" "$@" | xargs -P 3 -I{} sh -c 'u=$(echo {} | cut -d: -f1); k=$(echo {} | cut -d: -f2); python3 tools/mutsweep.py $u $k > .work/mutsweep_$u.log 2>&1; grep -A2 "^SURVIVOR\|^unit" .work/mutsweep_$u.log'
